@@ -288,6 +288,36 @@ def gen_link_into_closed():
     return out
 
 
+def gen_unstarted_child():
+    """a child that is still Unstarted (spawn_instant, linked by hand before its start task is ever polled) when
+    its supervisor exits in the same window without the child being polled: the supervisor is still inside
+    pre_start and the driver drops its start future (inline exit)"""
+    out = []
+    for via in ("self", "ancestor"):
+        for extra in ("none", "sibling", "grandchild"):
+            for sup_kind in (0, 1):
+                bld = Builder(7)
+                root = bld.spawn(None, kind=0, defsup=False)
+                top = bld.spawn(root if sup_kind == 1 else None, kind=sup_kind, pre=True, defsup=False)
+                mid = top
+                if via == "ancestor":
+                    mid = bld.spawn(None, kind=0, defsup=False)
+                    bld.emit("link", mid, top)
+                if extra == "sibling":
+                    s_ = bld.spawn(None, kind=0, defsup=False)
+                    bld.emit("link", s_, mid)
+                c = bld.spawn(None, kind=2, settle=False, defsup=False)
+                bld.emit("link", c, mid, settle=False)
+                if extra == "grandchild":
+                    g = bld.spawn(None, kind=2, settle=False, defsup=False)
+                    bld.emit("link", g, c, settle=False)
+                bld.emit("dropstart", top)
+                bld.emit("send", c, "blk")
+                bld.emit("flush")
+                out.append(bld.scenario(f"unstarted:{via}:{extra}:{sup_kind}"))
+    return out
+
+
 def rng_kind(i):
     return (0, 2)[i % 2]
 
@@ -458,7 +488,7 @@ def canon(term):
     open at once: the order in which tasks run inside that window decides spawn results)."""
     snaps, ress = [], []
     for pair in term:
-        _, sn, res = pair
+        sn, res = pair[1], pair[2]
         snaps.append([("tuple", x[1], sorted(x[2]), x[3]) for x in sn])
         ress.append([1 if r == ("Some", "true") else 0 for r in res])
     return snaps, ress[:-1]
@@ -527,7 +557,7 @@ def run(chk):
                 s["tag"] = "replay"
                 scns.append(s)
     else:
-        scns = load_corpus() + gen_systematic() + gen_stopping_middle() + gen_exit_during_pre_start() + gen_link_into_closed() + gen_children_wide()
+        scns = load_corpus() + gen_systematic() + gen_stopping_middle() + gen_exit_during_pre_start() + gen_link_into_closed() + gen_children_wide() + gen_unstarted_child()
         scns += gen_targeted(chk.rng, (250 if quick else 3000) * factor)
         scns += gen_random(chk.rng, (250 if quick else 3000) * factor)
 
@@ -541,7 +571,9 @@ def run(chk):
             exprs.append("true")
             continue
         reqs = "[" + "; ".join(f"({o[1]}, {o[3]})" for o in s["ops"] if o[0] == "spawn" and o[3] is not None) + "]"
-        exprs.append(f"check_C05_full {reqs} {show_term(it)}")
+        pairs = show_term([("tuple", x[1], x[2]) for x in it])
+        lk = show_term([("tuple", x[1], x[3] if len(x) > 3 else []) for x in it])
+        exprs.append(f"check_C05_full {reqs} {pairs} && check_links {lk}")
     vals = coq_eval("C05", IMPORTS, exprs)
     N = len(scns)
     distinct = set()
@@ -596,6 +628,14 @@ def run(chk):
 
 def explain(snaps, s=None, raw=None):
     """human-readable reason, mirroring check_C05_full (the verdict itself is Coq's)"""
+    if raw is not None:
+        for k, x in enumerate(raw):
+            for cp in (x[3] if len(x) > 3 else []):
+                c, p = cp[1], cp[2]
+                sn = x[1]
+                if sn[c][3] != ("Some", p) and sn[c][1] < 5:
+                    return (f"snapshot {k}: link of actor {c} under {p} was accepted in this window, but at its end actor {c} "
+                            f"is alive (status rank {sn[c][1]}) with supervisor {sn[c][3]} (actor {p}: status rank {sn[p][1]})")
     if s is not None and raw is not None:
         prev = None
         for k, pair in enumerate(raw):
